@@ -786,7 +786,7 @@ static int real_main(int argc, char **argv)
             bor_reset();
             fprintf(cjv_log, "B %ld\n", id);
             fflush(cjv_log);
-            mon_alarm(vm_thorough ? 120 : 60);
+            mon_alarm(vm_thorough ? 120 : 40);
             apply_cfg(cfg);
             f_active = 0; f_target_failed = 0;
             continue;
